@@ -126,6 +126,12 @@ check("C13", "model_checking", "gsched",
       "Trusted: vlib/gsched.py and vlib/gtbench.py (simulated selector/sockets/executor); scheduling points are operations on shared objects, the code between two points is atomic (so `nr_conns += 1` is one step, as on the CPython 3.12 interpreter here - on 3.7-3.9 interpreters it is not); deviation bound 1 (thorough 2); one known finding (busy loop at capacity) is listed.",
       "DESIGN.md section 3, C13; Appendix D")
 
+check("C18", "exploration", "gsched",
+      "exhaustive enumeration in four parts: (a) counting rule in-process: worker x max_requests 0..3 x jitter setting x jitter answer x connection mode through the real handle(); two interleaved keep-alive connections on one worker; (b) explicit-state search of the real ThreadWorker under the controlled scheduler with the limit switched on (histories x schedules); (c) real servers: class x max x jitter x load x bind",
+      "(a) 240 cells: alive turns false exactly at request number max_requests + jitter answer, every request up to then answered in full and the limit response announces close, no recycling with 0; after the limit another keep-alive connection gets at most its next request, closing. (b) ~970 states / ~22k executions: nothing is dispatched beyond the limit plus in-flight, no accepted connection is abandoned when the loop exits. (c) 20 (thorough ~100) real runs: per-pid served counts within max + jitter (+ one in flight per client for concurrent classes), zero client errors, pids change, constant pid set with 0.",
+      "Trusted: vlib/bench.py, vlib/gtbench.py, wall-clock bounds in the real runs; four known findings (gthread abandons a just-accepted connection at recycle - seen in simulation and on real servers; gevent/eventlet keep accepting for up to a second after the limit) are listed.",
+      "DESIGN.md section 3, C18")
+
 ALL = ["C%02d" % i for i in range(1, 21)]
 for pid in ALL:
     if pid not in CHECKS:
